@@ -331,7 +331,7 @@ macro_rules! __priv_pa_normalize_branches {
 macro_rules! __priv_pa_find_skip {
     ( $($args:tt)* ) => {{
         $crate::__priv_pa_find_skip_either!{
-            brem, [_, brem @ ..], __priv_bstr_start,
+            __konst_pm_brem, [_, __konst_pm_brem @ ..], __priv_bstr_start,
 
             $($args)*
         }
@@ -343,7 +343,7 @@ macro_rules! __priv_pa_find_skip {
 macro_rules! __priv_pa_rfind_skip {
     ( $($args:tt)* ) => {{
         $crate::__priv_pa_find_skip_either!{
-            brem, [brem @ .., _], __priv_bstr_end,
+            __konst_pm_brem, [__konst_pm_brem @ .., _], __priv_bstr_end,
 
             $($args)*
         }
@@ -365,19 +365,19 @@ macro_rules! __priv_pa_find_skip_either {
         )*
         default => ($default:expr)
     ) => {{
-        let mut bytes = $crate::__priv_pa_bytes_accessor!(get, $accessor_args);
+        let mut __konst_pm_bytes = $crate::__priv_pa_bytes_accessor!(get, $accessor_args);
 
         loop {
-            match bytes {
+            match __konst_pm_bytes {
                 $(
-                    $( $crate::$pat_proc_macro!(rem, $pattern))|* => {
-                        $crate::__priv_pa_bytes_accessor!(set, $accessor_args, rem);
+                    $( $crate::$pat_proc_macro!(__konst_pm_rem, $pattern))|* => {
+                        $crate::__priv_pa_bytes_accessor!(set, $accessor_args, __konst_pm_rem);
                         break $e
                     }
                 )*
                 _ => {
-                    if let $split_first_pat = bytes {
-                        bytes = $brem;
+                    if let $split_first_pat = __konst_pm_bytes {
+                        __konst_pm_bytes = $brem;
                     } else {
                         break $default;
                     }
@@ -402,8 +402,8 @@ macro_rules! __priv_pa_strip_prefix {
     ) => {
         match $crate::__priv_pa_bytes_accessor!(get, $accessor_args) {
             $(
-                $( $crate::__priv_bstr_start!(rem, $pattern))|* => {
-                    $crate::__priv_pa_bytes_accessor!(set, $accessor_args, rem);
+                $( $crate::__priv_bstr_start!(__konst_pm_rem, $pattern))|* => {
+                    $crate::__priv_pa_bytes_accessor!(set, $accessor_args, __konst_pm_rem);
                     $e
                 }
             )*
@@ -425,8 +425,8 @@ macro_rules! __priv_pa_strip_suffix {
     ) => {
         match $crate::__priv_pa_bytes_accessor!(get, $accessor_args) {
             $(
-                $( $crate::__priv_bstr_end!(rem, $pattern))|* => {
-                    $crate::__priv_pa_bytes_accessor!(set, $accessor_args, rem);
+                $( $crate::__priv_bstr_end!(__konst_pm_rem, $pattern))|* => {
+                    $crate::__priv_pa_bytes_accessor!(set, $accessor_args, __konst_pm_rem);
                     $e
                 }
             )*
@@ -462,17 +462,17 @@ macro_rules!  __priv_pa_trim_matches_inner{
         $accessor_args:tt
         $($pattern:pat_param)|*
     ) => {{
-        let mut bytes = $crate::__priv_pa_bytes_accessor!(get, $accessor_args);
+        let mut __konst_pm_bytes = $crate::__priv_pa_bytes_accessor!(get, $accessor_args);
 
-        while let $( $crate::$pat_proc_macro!(rem, $pattern) )|* = bytes {
-            if rem.len() == bytes.len() {
+        while let $( $crate::$pat_proc_macro!(__konst_pm_rem, $pattern) )|* = __konst_pm_bytes {
+            if __konst_pm_rem.len() == __konst_pm_bytes.len() {
                 break
             } else {
-                bytes = rem;
+                __konst_pm_bytes = __konst_pm_rem;
             }
         }
 
-        $crate::__priv_pa_bytes_accessor!(set, $accessor_args, bytes);
+        $crate::__priv_pa_bytes_accessor!(set, $accessor_args, __konst_pm_bytes);
     }}
 }
 
